@@ -1,6 +1,6 @@
 (* C18 — case type, correspondence predicate and the property's predicate
    evaluated on what the implementation did. Depends on the model only. *)
-From Murex Require Export Base.Outcome Base.Bytes Base.CheckLib Model.Decimal Model.MkArray.
+From Murex Require Export Base.Outcome Base.Bytes Base.CheckLib Model.Decimal Model.MkArray Model.MkArrayParse.
 Open Scope Z_scope.
 
 (* o_class: 0 ok, 1 clean error, 2 panic / crash, 3 timeout, 4 exit 0 but
@@ -8,8 +8,10 @@ Open Scope Z_scope.
 Record obs := { o_class : N; o_items : list bytes }.
 
 (* c_ja: false = `a` (one element per line), true = `ja` (JSON array; numbers
-   are compared by their literal text) *)
-Record case := { c_ja : bool; c_expr : expr; c_obs : obs }.
+   are compared by their literal text).
+   c_raw: the parameter bytes handed to the builtin.
+   c_expr: the expression the harness rendered c_raw from (None: the malformed stream). *)
+Record case := { c_ja : bool; c_raw : bytes; c_expr : option expr; c_obs : obs }.
 
 Definition items_eqb := list_eqb bytes_eqb.
 
@@ -21,7 +23,7 @@ Definition obs_matches (m : Outcome (list bytes)) (o : obs) : bool :=
   | OutOfFuel => (o_class o =? 3)%N
   end.
 
-Definition agree (c : case) : bool := obs_matches (expand (c_expr c)) (c_obs c).
+Definition agree (c : case) : bool := obs_matches (run_expr (c_ja c) (c_raw c)) (c_obs c).
 
 Definition obs_of (m : Outcome (list bytes)) : obs :=
   match m with
@@ -64,6 +66,7 @@ Fixpoint spec_block (es : list elem) : option (list bytes) :=
       | Some a, Some vs => Some (a ++ vs)
       | _, _ => None
       end
+  | EBad _ :: _ => None
   end.
 
 (* cartesian product in odometer order: the last block varies fastest *)
@@ -90,11 +93,28 @@ Fixpoint spec_expr (e : expr) : option (list bytes) :=
 
 Definition no_panic (o : obs) : bool := negb ((o_class o =? 2)%N || (o_class o =? 3)%N).
 
+(* The property speaks about expressions; the harness states which expression a
+   byte string spells (checked here against print_expr, not against the parser).
+   For byte strings that spell nothing (malformed stream) only "no panic, no hang". *)
 Definition spec_ok (c : case) : bool :=
   no_panic (c_obs c) &&
-  match spec_expr (c_expr c) with
-  | Some l => (o_class (c_obs c) =? 0)%N && items_eqb (o_items (c_obs c)) l
+  match c_expr c with
   | None => true
+  | Some e =>
+      bytes_eqb (print_expr e) (c_raw c) &&
+      match spec_expr e with
+      | Some l => (o_class (c_obs c) =? 0)%N && items_eqb (o_items (c_obs c)) l
+      | None => true
+      end
   end.
 
-Definition classify (c : case) : N := 0%N.
+(* known finding 1: `ja` on a single [..] of digit strings / digit ranges writes
+   numbers and drops empty elements (`ja [1,,2]` = [1,2]; `ja [,]` = "no data") *)
+Definition is_empty_str (e : elem) : bool := match e with EStr [] => true | _ => false end.
+
+Definition classify (c : case) : N :=
+  match c_expr c with
+  | Some [[SBlock es]] =>
+      if c_ja c && is_number_expr (c_raw c) && existsb is_empty_str es then 1%N else 0%N
+  | _ => 0%N
+  end.
